@@ -428,6 +428,9 @@ class Interp:
             cnt = 0
             try:
                 if n != 0:
+                    # (a plain `async for`: awaiting __anext__() by hand changes how CPython
+                    #  finalises the async generator when the activity is closed)
+                    ev(name, idx, 'get_begin')              # each wait of the iteration is logged
                     async for v in s:
                         ev(name, idx, 'got', v)
                         cnt += 1
@@ -435,6 +438,7 @@ class Interp:
                             await (time + num(gap))
                         if n is not None and cnt >= n:
                             break
+                        ev(name, idx, 'get_begin')
             finally:
                 ev(name, idx, 'iter_out', cnt)
             ev(name, idx, 'iter_end', cnt)
